@@ -35,6 +35,7 @@ function mk(a, id, n, throwAt, badAt, retMode, pairs) {
   return it;
 }
 function deep(n, f) { return n > 0 ? deep(n - 1, f) : f(); }
+function lg(d, k, a) { return deep(d, function() { return log(k, a); }); }
 function gen(a, site, k, gf) { var inst = ++seq; ev("G", a, site, k, inst); return gf(inst); }
 function mf(a, id, at) { var c = 0; return function(v) { return deep(2, function() { if (++c === at) { ev("MF", a, id, c); throw 60000 + id; } return v; }); }; }
 function thrS(a, id, at) { var c = 0; return class extends Set { add(v) { deep(2, function() { if (++c === at) { ev("AD", a, id, c); throw 61000 + id; } }); return super.add(v); } }; }
@@ -235,7 +236,11 @@ func (p *printer) stmt(n *Node, d int, labels string) {
 			p.line(labels + "continue;")
 		}
 	case Log:
-		p.linef("%slog(%d, a);", labels, id)
+		if d := id % 3; d != 0 {
+			p.linef("%slg(%d, %d, a);", labels, d, id) // same as log(id, a), d call-stack levels deeper
+		} else {
+			p.linef("%slog(%d, a);", labels, id)
+		}
 	case Destruct:
 		var el []string
 		for i := 1; i <= n.NElems; i++ {
